@@ -3,6 +3,8 @@
 Engine E3: every program of the grammar slices (vf/slices.py) is written to a
 real file, retrieved with sigtools.signature and *executed* on every
 non-colliding call shape the reported signature accepts."""
+import itertools
+
 from sigtools import signatures as S
 
 from vf import space, alg, runner, grammar, discovery, slices
@@ -52,6 +54,48 @@ def check_not_advertised(ld, sig, tainted, st, case):
     return True
 
 
+def _narrow():
+    return 0
+
+
+def check_replaceable_callee(ld, sig, pl, st, case):
+    """The callee is the default of the keyword-only parameter fn0 and the reported signature differs from the plain
+    one: whatever it advertises has to hold for a caller who replaces fn0 (here: by a function taking nothing) as well
+    as for one who leaves the default."""
+    pr = ld.prog
+    own = set(space.names_of(pr.outer))
+    kws = sorted(set(nm for cs in pr.calls for nm in space.kwpass(cs.callee)) - own)
+    maxp = max(len(space.positionals(cs.callee)) for cs in pr.calls) + len(space.positionals(pr.outer))
+    n_exec = 0
+    for n in range(maxp + 2):
+        for r in range(min(len(kws), 2) + 1):
+            for K in itertools.combinations(kws, r):
+                for replace in (False, True):
+                    a = (0,) * n
+                    k = dict((nm, 0) for nm in K)
+                    if replace:
+                        k['fn0'] = _narrow
+                    try:
+                        sig.bind(*a, **k)
+                    except TypeError:
+                        continue
+                    n_exec += 1
+                    try:
+                        ld.w(*a, **k)
+                        continue
+                    except TypeError as e:
+                        err = str(e)
+                    st.violation('accepted-call-raises-TypeError', case,
+                                 {'program': discovery.show_prog(ld), 'reported': str(sig), 'plain': str(pl),
+                                  'call': {'positionals': n, 'keywords': sorted(K), 'fn0': 'a function taking nothing' if replace else 'default'},
+                                  'error': err[:200]},
+                                 {'context': pr.context, 'route': pr.route, 'taint': None})
+                    st.inc('transitions', n_exec)
+                    return
+    st.inc('transitions', n_exec)
+    st.inc('executed_programs')
+
+
 def eval_prog(ld, st):
     pr = ld.prog
     case = {'program': grammar.to_json(pr)}
@@ -79,6 +123,9 @@ def eval_prog(ld, st):
         return
     if alg.params_key(sig) == alg.params_key(pl):
         st.inc('fallback_or_unchanged')
+        return
+    if pr.route == 'method_default':
+        check_replaceable_callee(ld, sig, pl, st, case)
         return
     rshape = shape_of(sig)
     known = set(nm for s_ in discovery.input_shapes(ld) for nm in space.names_of(s_))
